@@ -77,7 +77,7 @@ def expand_refs(spec, up=None):
 
 
 def model_case(case):
-    c = {k: v for k, v in case.items() if k not in ("rawkey", "_tag", "cbkind", "_boxes")}
+    c = {k: v for k, v in case.items() if k not in ("rawkey", "_tag", "cbkind", "_boxes", "bytes")}
     if c.get("op") == "tree":
         c["tree"] = expand_refs(c["tree"])
         c["ops"] = [[o[0], o[1], expand_refs(o[2])] if o[0] == "add_at" else [o[0], expand_refs(o[1])] if o[0] == "add" else o for o in c["ops"]]
@@ -94,7 +94,9 @@ def model_case(case):
             st.pop("src_ref", None); steps.append(st)
         c["steps"] = steps
     if c.get("op") == "prompt":
-        c["ops"] = [o[:3] for o in c["ops"]]
+        # (the standard options: key and default description as documented - 'r' to refresh, 'c' to continue, 'q' to quit, 'h' to help)
+        STD = {"refresh": ("r", "to refresh"), "continue": ("c", "to continue"), "quit": ("q", "to quit"), "help": ("h", "to help")}
+        c["ops"] = [["set", STD[o[1]][0], STD[o[1]][1] if o[2] is None else o[2]] if o[0] == "std" else o[:3] for o in c["ops"]]
     return c
 
 
